@@ -1,15 +1,16 @@
-(* Defect of LogicFormula.enumerate_branches on CYCLIC formulas (not imported by Props.v).
-   The cycle guard `if index in anc: yield 0, []` yields the EMPTY branch; inside a
-   conjunction the empty branch is neutral (chain( *c_br)), i.e. the recursive call is
-   treated as TRUE.  The enumerated branches then contain a "proof" that goes around the
-   cycle without ever leaving it.
-   Witness = the findall_target of
+(* Findings of C19 (not imported by Props.v).
+   FIXED in /repo (ecf01bc, fixes/C19-enumerate-branches-cycle-guard.patch): the cycle guard of
+   LogicFormula.enumerate_branches yielded the EMPTY branch (`yield 0, []`), which is neutral inside a
+   conjunction, so a recursive call cut by the guard counted as TRUE; on the formula below the code
+   enumerated the branch e(b,c),e(c,b) as a proof of r(b) (P(q([])) = 0.1875 instead of 0.25).
+   The model now mirrors the repaired code (no branch); the former witness `C19_cycle_guard_refuted`
+   is replaced by Props.v: C19_branches_equiv_cyclic / C19_branches_example_cyclic, and the harness
+   judges the witness program on every run (class findall-cyclic-goal-branch-ignores-recursive-call).
+   Still open (dead code, no caller in /repo): get_node_multiplicity has no cycle guard.
+   Witness formula = the findall_target of
        0.5::e(a,b). 0.5::e(b,c). 0.5::e(c,b). 0.5::e(a,c).
        r(X) :- e(a,X).   r(X) :- r(Y), e(Y,X).   q(L) :- findall(X, r(X), L).
-   as dumped from /repo: node 3 = r(b) = e(a,b) \/ (r(c) /\ e(c,b)), node 4 = r(c) = e(a,c) \/ (r(b) /\ e(b,c)).
-   Real output: enumerate_branches(3) = [(1,[1]), (8,[2,7]), (8,[5,7])]: the last branch
-   e(b,c) /\ e(c,b) does not prove r(b) (least model: false when e(a,b), e(a,c) are false).
-   On the real code: P(q([])) = 0.1875 instead of 0.25. *)
+   node 3 = r(b) = e(a,b) \/ (r(c) /\ e(c,b)), node 4 = r(c) = e(a,c) \/ (r(b) /\ e(b,c)). *)
 From Coq Require Import ZArith NArith List Bool.
 From PL.C09 Require Import BoolGraph.
 From PL.C19 Require Import ModelSelectSublist ModelBranches.
@@ -17,19 +18,6 @@ Import ListNotations.
 
 Definition cyc_g : graph :=
   [NAtom 0; NAtom 1; NOr [1; 8]; NOr [2; 6]; NAtom 2; NAnd [3; 5]; NAtom 3; NAnd [4; 7]]%Z.
-(* e(b,c) and e(c,b) true, e(a,b) and e(a,c) false *)
-Definition cyc_a (id : N) : bool := (id =? 2)%N || (id =? 3)%N.
-
-Theorem C19_cycle_guard_refuted :
-  exists (g : graph) (a : N -> bool) (s : nat -> bool) (c : Z) (bs : list (Z * branch)),
-    is_model g a s /\ eb g (default_fuel g) [] c = Some bs /\
-    existsb (fun mb => bval s (snd mb)) bs = true /\ lit_val s c = false.
-Proof.
-  exists cyc_g, cyc_a, (vget (sem cyc_g cyc_a)), 3%Z, [(1, [1]); (8, [2; 7]); (8, [5; 7])]%Z.
-  split; [apply is_modelb_sound; vm_compute; reflexivity|].
-  split; [vm_compute; reflexivity|]. split; vm_compute; reflexivity.
-Qed.
-Print Assumptions C19_cycle_guard_refuted.
 
 (* get_node_multiplicity has no cycle guard at all: unbounded recursion (RecursionError in /repo) *)
 Example C19_multiplicity_cyclic_diverges : forall fuel, mult cyc_g fuel 3 = None.
